@@ -81,6 +81,9 @@ TxtIn(t, txts) == \E i \in 1..Len(txts) : txts[i] = t
 MovedXY(p, q) == p.x # q.x \/ p.y # q.y
 MovedXYZ(p, q) == MovedXY(p, q) \/ p.z # q.z
 
+HandledCodes == {"G0", "G1", "G2", "G3", "G10", "G11", "G20", "G21", "G28", "G90", "G91", "G92",
+                 "M82", "M83", "M206"}
+
 \* ledger entry: [code, m (merge), txt, args]
 LedgerIdx(led, code) == {i \in 1..Len(led) : led[i].code = code}
 LedgerWithout(led, code) == SelectSeq(led, LAMBDA en : en.code # code)
@@ -228,7 +231,9 @@ GStepActive(cs, ev, q, tol) ==
         tag == IF shifted1 THEN "g92xyz" ELSE ""
         verbatim == ev.res = "unchanged" \/ (ev.res = "list" /\ nout = 1 /\ outs[1].txt = c.txt)
         lastIsInput == ev.res = "unchanged" \/ (ev.res = "list" /\ nout >= 1 /\ outs[nout].txt = c.txt)
-        deferred == cs.ep /\ c.code \in DOMAIN cf.xg
+        \* (an entry of the extended-code table for a code the filter handles itself is inert:
+        \* the table is consulted only for codes without a handler of their own)
+        deferred == cs.ep /\ c.code \in DOMAIN cf.xg /\ c.code \notin HandledCodes
         led1  == IF closing \/ opening THEN <<>>
                  ELSE IF deferred THEN LedgerAdd(cs.led, cf.xg[c.code], c) ELSE cs.led
         \* filament pushed by forwarded printing commands (G0-G3 carrying an X/Y/Z word)
